@@ -519,7 +519,7 @@ func (r *runner) do(client int, op Op) {
 	x := r.x
 	var bar *mpb.Bar
 	switch op.K {
-	case "add", "write", "writebuf", "refresh", "cancel", "shutdown", "undelay", "yield", "pwait", "join", "closepty":
+	case "add", "write", "writebuf", "refresh", "cancel", "shutdown", "undelay", "yield", "sleep", "pwait", "join", "closepty":
 	default:
 		if op.B < 0 || op.B >= len(r.bars) || r.bars[op.B] == nil {
 			x.Calls = append(x.Calls, Call{Client: client, Op: op.String(), Inv: mcrt.Step(), Ret: mcrt.Step() + 1, Res: "skipped"})
@@ -597,6 +597,8 @@ func (r *runner) do(client int, op Op) {
 			r.p.Shutdown()
 		case "undelay":
 			close(r.delay)
+		case "sleep":
+			time.Sleep(time.Duration(op.N) * time.Millisecond)
 		case "yield":
 			mcrt.Yield()
 		case "join":
